@@ -33,6 +33,7 @@ type Dialer struct {
 	Dials   int    // number of dial attempts started
 	DialAt  []time.Time
 	pending []*pendingDial
+	hanging int
 	OnConn  func(impl, peer *End) // optional: called for every new connection (e.g. to start a TLS server on peer)
 }
 
@@ -93,7 +94,13 @@ func (d *Dialer) Dial(ctx context.Context) (net.Conn, error) {
 	case DialRefuse:
 		return nil, ErrRefused
 	case DialHang:
+		d.mu.Lock()
+		d.hanging++
+		d.mu.Unlock()
 		<-ctx.Done()
+		d.mu.Lock()
+		d.hanging--
+		d.mu.Unlock()
 		return nil, context.Cause(ctx)
 	case DialLateForce:
 		if ok := <-p.release; !ok {
@@ -147,6 +154,9 @@ func (d *Dialer) Release(connect bool) {
 		p.release <- connect
 	}
 }
+
+// Hanging is the number of dials currently stuck in a scripted DialHang.
+func (d *Dialer) Hanging() int { d.mu.Lock(); defer d.mu.Unlock(); return d.hanging }
 
 func (d *Dialer) NumDials() int { d.mu.Lock(); defer d.mu.Unlock(); return d.Dials }
 
